@@ -802,14 +802,21 @@ fn angle_float<F: Fl, V: Sp<F>>(s: &Section, thorough: bool) {
         let na: i64 = a.iter().map(|x| x * x).sum();
         if na == 0 { return; }
         let (mut ev, mut par, mut anti, mut perp, mut gen, mut clamp) = (0u64, 0u64, 0u64, 0u64, 0u64, 0u64);
-        let va: V = ivec::<F, V>(a, 1.0);
-        for b in &right {
+        let mut scaled = 0u64;
+        // lengths far from 1 (exact power-of-two scalings of the same directions): the angle does not depend on them; a formula that
+        // multiplies the two squared lengths overflows / underflows where normalising each operand does not
+        let big: f64 = if F::EPS < 1e-10 { 2f64.powi(400) } else { 2f64.powi(40) };
+        let scales: [(f64, f64); 4] = [(1.0, 1.0), (big, big), (1.0 / big, 1.0 / big), (big, 1.0 / big)];
+        for (bi, b) in right.iter().enumerate() { for (si, &(sa, sb)) in scales.iter().enumerate() {
+            if si > 0 && bi % 8 != 0 { continue; }
             let nb: i64 = b.iter().map(|x| x * x).sum();
             if nb == 0 { continue; }
             let dot: i64 = (0..n).map(|i| a[i] * b[i]).sum();
             let c = dot as f64 / ((na * nb) as f64).sqrt();
-            let vb: V = ivec::<F, V>(b, 1.0);
-            let inp = || json!({"a": a, "b": b});
+            let va: V = ivec::<F, V>(a, sa);
+            let vb: V = ivec::<F, V>(b, sb);
+            if si > 0 { scaled += 1; }
+            let inp = || json!({"a": a, "b": b, "a_scaled_by": sa, "b_scaled_by": sb});
             ev += 1;
             if dot * dot == na * nb { if dot > 0 { par += 1 } else { anti += 1 } } else if dot == 0 { perp += 1 } else { gen += 1 }
             // vacuity guard for the clamp: does the rounded cosine of this pair leave [-1,1]?  (same operation order as a normalise-then-dot in the tier)
@@ -822,7 +829,8 @@ fn angle_float<F: Fl, V: Sp<F>>(s: &Section, thorough: bool) {
             if !(g >= 0.0 && g <= pi * (1.0 + 4.0 * F::EPS)) { vio(s, &site, "outside-[0,pi]", json!({"input": inp(), "got": g}), w); }
             else if !near::<F>(g.cos(), c, 1.0) { vio(s, &site, "cos(angle)|a||b| differs from a.b", json!({"input": inp(), "got": g, "cos(got)": g.cos(), "a.b/(|a||b|)": c}), w); }
             if gen > 0 && dot < 0 && s.wants_sample() { s.sample(json!({"type": V::NAME, "tier": F::NAME, "input": inp(), "got": g, "cos(got)": g.cos(), "a.b/(|a||b|)": c})); }
-        }
+        } }
+        s.class_n("lengths scaled by 2^+-40 (f32) / 2^+-400 (f64)", scaled);
         s.evals(ev, ev - par);
         s.class_n("parallel (0)", par); s.class_n("antiparallel (pi)", anti); s.class_n("perpendicular (pi/2)", perp); s.class_n("general angle", gen);
         s.class_n("rounded cosine outside [-1,1] (clamp needed)", clamp);
@@ -915,6 +923,31 @@ fn slerp_exact(s: &Section, thorough: bool) {
             if j == 1 && r1 != r2 && s.wants_sample() { let (want, l) = want_at(1); s.sample(json!({"input": inp(), "want": jxs(&want), "length": jx(l)})); }
         }
     } } }
+    // nearly parallel pairs: from = r1 e1, to = r2 z (ONE step of a tiny rational arc), integer factors j = -1..3 (extrapolation is
+    // exact on the circle: the result is r(j) z^j).  The arcs keep 1 - cos(alpha) >= 2^-33, far outside any epsilon-sized
+    // "treat as parallel" window, so the spherical formula - not a linear shortcut - is what the property describes here.
+    for (e1, e2) in frames.iter().take(if thorough { 12 } else { 4 }) { for &(tn, td) in &[(1i128, 128i128), (1, 512), (1, 4096), (1, 65536)] { for &(r1, r2) in &lengths {
+        reset_angles();
+        let b = angle_base_t(tn, td);
+        register_inverse(X::tok(b, 1));
+        let (s1, c1) = X::tok(b, 1).sin_cos_q();
+        let from = comb(e1, e2, qi(1), qi(0), r1);
+        let to = comb(e1, e2, X::R(c1), X::R(s1), r2);
+        s.class("nearly parallel arc");
+        for j in -1i128..=3 {
+            let f = qi(j);
+            let (sj, cj) = X::tok(b, j).sin_cos_q();
+            let l = r1 + f * (r2 - r1);
+            let want = comb(e1, e2, X::R(cj), X::R(sj), qi(1)).map(|c| c * l);
+            let inp = || json!({"from": jxs(&from), "to": jxs(&to), "factor": jx(f), "arc": format!("arg(z), z of rational parameter {}/{}", tn, td)});
+            let (vf, vt) = (v3(&from), v3(&to));
+            s.eval(j != 0 && j != 1);
+            let Some(g) = s.call("Vec3::slerp_unclamped<X>", inp, || arr(Vec3::slerp_unclamped(vf, vt, f))) else { continue };
+            if g == want { continue; }
+            let class = if j == 0 { "factor-0-is-not-from" } else if j == 1 { "factor-1-is-not-to" } else if rdot(&g, &g) != l * l { "length-not-linearly-interpolated" } else { "not-on-the-arc-at-constant-angular-speed" };
+            vio(s, "Vec3::slerp_unclamped<X>", class, json!({"input": inp(), "nearly_parallel": true, "got": jxs(&g), "want": jxs(&want), "|got|^2": jx(rdot(&g, &g)), "lerp(|from|,|to|)^2": jx(l * l)}), xw(&from) + xw(&to) + j.unsigned_abs() as u64);
+        }
+    } } }
     // parallel pairs: the exact tier cannot give a verdict (sin(alpha) = 0 divides), it is counted; the float tiers decide
     for (e1, e2) in frames.iter().take(6) { for &(r1, r2) in &lengths { for j in [0i128, 2, 4] {
         reset_angles();
@@ -1004,6 +1037,46 @@ fn slerp_float<F: Sl>(s: &Section, thorough: bool) {
     s.meta(F::NAME, json!({"directions": dirs.len(), "length_pairs": lengths.len(), "factors": format!("k/{}, k={}..{}", den, -(den / 2), den + den / 2), "forms": 4}));
 }
 
+/// nearly parallel (but distinct) directions: the arc formula must still hold - a linear shortcut is only right for alpha = 0
+fn slerp_float_near_parallel<F: Sl>(s: &Section, thorough: bool) {
+    let site = format!("Vec3::slerp_unclamped<{}>", F::NAME);
+    let frames: [([f64; 3], [f64; 3]); 3] = [([1.0, 0.0, 0.0], [0.0, 1.0, 0.0]), ([0.0, 0.0, 1.0], [0.6, 0.8, 0.0]), ([0.6, 0.0, 0.8], [0.0, 1.0, 0.0])];
+    let thetas: &[f64] = if F::EPS < 1e-10 { &[0.25, 0.1, 0.03, 0.01, 1e-3, 1e-4, 1e-5] } else { &[0.25, 0.1, 0.03, 0.01] };
+    let lengths: [(f64, f64); 3] = [(1.0, 1.0), (1.0, 2.0), (2.0, 0.5)];
+    let den: i64 = if thorough { 16 } else { 8 };
+    for (e1, e2) in &frames { for &th in thetas { for &(r1, r2) in &lengths {
+        // inputs as the tier sees them (rounded to F), then everything is derived from those rounded inputs
+        let from: [f64; 3] = std::array::from_fn(|i| F::of(r1 * e1[i]).f());
+        let to: [f64; 3] = std::array::from_fn(|i| F::of(r2 * (th.cos() * e1[i] + th.sin() * e2[i])).f());
+        let (lf, lt) = ((0..3).map(|i| from[i] * from[i]).sum::<f64>().sqrt(), (0..3).map(|i| to[i] * to[i]).sum::<f64>().sqrt());
+        let (u, v): (Vec<f64>, Vec<f64>) = ((0..3).map(|i| from[i] / lf).collect(), (0..3).map(|i| to[i] / lt).collect());
+        // angle from the cross product (well conditioned for small angles)
+        let cr = [u[1] * v[2] - u[2] * v[1], u[2] * v[0] - u[0] * v[2], u[0] * v[1] - u[1] * v[0]];
+        let alpha = (cr[0] * cr[0] + cr[1] * cr[1] + cr[2] * cr[2]).sqrt().atan2((0..3).map(|i| u[i] * v[i]).sum::<f64>());
+        s.class("nearly parallel pair");
+        for k in -(den / 2)..=(den + den / 2) {
+            let f = k as f64 / den as f64;
+            let l = lf + f * (lt - lf);
+            let want: [f64; 3] = std::array::from_fn(|i| l * (((1.0 - f) * alpha).sin() * u[i] + (f * alpha).sin() * v[i]) / alpha.sin());
+            // the code's acos(cos alpha) is ill-conditioned near 0: d(alpha) ~ eps/alpha, but the weights depend on alpha only at second order
+            let scale = (lf + lt) * (1.0 + f.abs()) * (1.0 + f.abs()) * 4.0;
+            let inp = || json!({"from": from, "to": to, "factor": f, "angle_between_inputs": alpha});
+            s.eval(k != 0 && k != den);
+            let Some(fm) = s.call(&site, inp, || F::forms(&from, &to, f)) else { continue };
+            let g = fm[0];
+            let close = |p: &[f64; 3], q_: &[f64; 3]| (0..3).all(|i| near::<F>(p[i], q_[i], scale));
+            let len = (g[0] * g[0] + g[1] * g[1] + g[2] * g[2]).sqrt();
+            let class = if g.iter().any(|x| x.is_nan()) { "nan" }
+                else if k == 0 && !close(&g, &from) { "factor-0-is-not-from" }
+                else if k == den && !close(&g, &to) { "factor-1-is-not-to" }
+                else if !near::<F>(len, l.abs(), scale) { "length-not-linearly-interpolated" }
+                else if !close(&g, &want) { "not-on-the-arc-at-constant-angular-speed" }
+                else { "" };
+            if !class.is_empty() { vio(s, &site, class, json!({"input": inp(), "nearly_parallel": true, "got": jd(&g), "want": want, "|got|": jd(&len), "lerp(|from|,|to|,factor)": l}), 10 + k.unsigned_abs()); }
+        }
+    } } }
+}
+
 macro_rules! each_spatial { ($V:ident => $body:block) => { vx::for_spatial_vecs!($V => $body) } }
 
 fn main() {
@@ -1067,7 +1140,7 @@ fn main() {
     });
     rep.section("angle_between, f64 and f32",
         "all ordered pairs of non-zero vectors of {-2..2}^N for N <= 4 ({-3..3}^N for N <= 3 thorough); for N >= 8 vectors with <= 2 non-zero lanes (values +-1, +-2) against six companions and a thinned <=2-lane set; oracle from exact integers: result in [0, pi] (never NaN) and |cos(result) - a.b/(|a||b|)| <= 256 eps; non-trivial: not parallel", true, false, |s| {
-        s.require_classes(&["parallel (0)", "antiparallel (pi)", "perpendicular (pi/2)", "general angle", "rounded cosine outside [-1,1] (clamp needed)"]);
+        s.require_classes(&["parallel (0)", "antiparallel (pi)", "perpendicular (pi/2)", "general angle", "rounded cosine outside [-1,1] (clamp needed)", "lengths scaled by 2^+-40 (f32) / 2^+-400 (f64)"]);
         each_spatial!(V => { angle_float::<f64, V<f64>>(s, th); angle_float::<f32, V<f32>>(s, th); });
     });
     rep.section("face_forward flips by the sign of reference.incident",
@@ -1077,14 +1150,15 @@ fn main() {
     });
 
     rep.section("Vec3 slerp / slerp_unclamped, exact (angle tokens)",
-        "from = r1 e1, to = r2 (cos 4phi e1 + sin 4phi e2) for orthonormal rational frames (e1,e2), 8 rational arcs 4phi in (0, pi) (two obtuse, up to 174 deg), length pairs (1,1),(1,2),(3,1/2), factors j/4 for j = -2..6, four entry points (inherent / Slerp trait, unclamped / clamped): result = lerp(r1,r2,f) (cos j phi e1 + sin j phi e2) exactly: factor 0 -> from, 1 -> to, length interpolated linearly, on the arc; clamped forms at the clamped factor; parallel pairs are run and counted (the exact tier divides 0/0, no verdict); non-trivial: effective factor not in {0,1}", true, false, |s| {
-        s.require_classes(&["acute arc", "obtuse arc"]);
+        "from = r1 e1, to = r2 (cos 4phi e1 + sin 4phi e2) for orthonormal rational frames (e1,e2), 8 rational arcs 4phi in (0, pi) (two obtuse, up to 174 deg), length pairs (1,1),(1,2),(3,1/2), factors j/4 for j = -2..6, four entry points (inherent / Slerp trait, unclamped / clamped): result = lerp(r1,r2,f) (cos j phi e1 + sin j phi e2) exactly: factor 0 -> from, 1 -> to, length interpolated linearly, on the arc; clamped forms at the clamped factor; plus nearly parallel pairs (to = one step of a rational arc of 0.016 .. 3e-5 rad) at integer factors -1..3; parallel pairs are run and counted (the exact tier divides 0/0, no verdict); non-trivial: effective factor not in {0,1}", true, false, |s| {
+        s.require_classes(&["acute arc", "obtuse arc", "nearly parallel arc"]);
         slerp_exact(s, th);
     });
     rep.section("Vec3 slerp / slerp_unclamped, f64 and f32 (parallel pairs and from == to included)",
-        "all ordered non-antiparallel pairs of the 26 directions {-1,0,1}^3 \\ 0 (from = r1 d1, to = r2 d2; d1 = d2 gives the parallel pairs and from == to), length factors (1,1),(1,2),(2,1/2), factors k/8 for k = -4..12 (k/16 thorough): slerp_unclamped(.,.,0) = from, (.,.,1) = to, |result| = |lerp(|from|,|to|,f)|, result on the arc at angle f alpha, never NaN; bound 256 eps (|from|+|to|)(1+|f|)^2 cond, cond = 1+1/sin^3(alpha) for obtuse alpha else 2; the Slerp trait form is bit-identical, the clamped forms equal slerp_unclamped at clamp01(f); non-trivial: from != to and factor not in {0,1}", true, false, |s| {
-        s.require_classes(&["parallel pair, different lengths", "from == to", "general pair"]);
+        "all ordered non-antiparallel pairs of the 26 directions {-1,0,1}^3 \\ 0 (from = r1 d1, to = r2 d2; d1 = d2 gives the parallel pairs and from == to), length factors (1,1),(1,2),(2,1/2), factors k/8 for k = -4..12 (k/16 thorough): slerp_unclamped(.,.,0) = from, (.,.,1) = to, |result| = |lerp(|from|,|to|,f)|, result on the arc at angle f alpha, never NaN; bound 256 eps (|from|+|to|)(1+|f|)^2 cond, cond = 1+1/sin^3(alpha) for obtuse alpha else 2; the Slerp trait form is bit-identical, the clamped forms equal slerp_unclamped at clamp01(f); plus nearly parallel pairs at 0.25 .. 1e-5 rad (f32: .. 0.01) in three frames with the same assertions; non-trivial: from != to and factor not in {0,1}", true, false, |s| {
+        s.require_classes(&["parallel pair, different lengths", "from == to", "general pair", "nearly parallel pair"]);
         slerp_float::<f64>(s, th); slerp_float::<f32>(s, th);
+        slerp_float_near_parallel::<f64>(s, th); slerp_float_near_parallel::<f32>(s, th);
     });
 
     let counted: BTreeMap<String, u64> = THROTTLE.lock().unwrap().iter().map(|(k, v)| (k.clone(), v.0)).collect();
